@@ -64,7 +64,7 @@ CHECKS = {
   'text': 'Decides the cache-refresh discipline that incremental = from-scratch requires on every path: each write of alias / definition / kind / membership in Schema and of alias / term text / term form / text definition / membership in Thesaurus '
           'is followed before any success exit by exactly the refreshes that kind of write needs (whole-graph invalidation + full re-analysis for names and membership, per-constituent graph update + TriggerParse for one definition, term/definition graph updates + re-resolution for texts); '
           'deferred loaders are dirty until UpdateState on every caller chain; TriggerParse/UpdateState/OnTermChange walk the full dependency order after the reset with no early exit; lazy graphs rebuild completely; ParseCst stores one consistent auditor run.',
-  'note': 'Frozen exception: Schema::SetDefinitionFor skips refresh only on the branch where FindExpr(new text) returns the constituent itself (identical syntax tree). Does not decide that the graph updater extracts exactly the mentioned globals, nor equality of results with a fresh build.',
+  'note': 'Schema::SetDefinitionFor may skip the graph refresh and the re-analysis of dependants only on the branch where FindExpr(new text) returns the constituent itself (identical syntax tree); on that branch the constituent itself must be re-audited after its own record is cleared (r1 same-tree-positions, r6 same-tree: audit finding repaired - the stored tree kept the token positions of the previous text). AUDIT-ON-RESET-STATE (r6) decides that every other audit runs on cleared records of the whole dependants closure. Does not decide that the graph updater extracts exactly the mentioned globals, nor equality of results with a fresh build.',
  },
  'C10': {
   'technique': 'writer/reader table agreement extracted from the typed AST (JSON keys with their source/destination members), exhaustive check of the enum string tables, ORDER rule for the load protocol',
